@@ -21,6 +21,11 @@ class Outer:
 class Deep:
   p: Inner
 
+@bitstruct
+class Pre:
+  val: Bits8
+  val2: Bits8
+
 class Fwd( Component ):
   def construct( s, T ):
     s.in_ = InPort( T ); s.out = OutPort( T )
@@ -60,7 +65,33 @@ def family_A():
       for fwd in (False,True):
         for extra_pred in (False,True):
           out.append((f"A[{wk};{'+'.join(rks)};{'fwd' if fwd else 'nofwd'};{'pred' if extra_pred else 'nopred'}]",gen_A(wk,rks,struct,fwd,extra_pred)))
+  # reads and writes that happen inside @s.func helper functions (chains of depth 1..3) belong to the calling block
+  for d in (1,2,3):
+    for side in ('reader','writer','both'):
+      for extra_pred in (False,True):
+        out.append((f"A[helper;{side};d{d};{'pred' if extra_pred else 'nopred'}]",gen_A_helper(d,side,extra_pred)))
   return out
+
+def gen_A_helper(d,side,extra_pred):
+  L=[]; a=L.append
+  a("class Top( Component ):"); a("  def construct( s ):")
+  a("    s.in0 = InPort( Bits16 ); s.in1 = InPort( Bits16 )"); a("    s.w = Wire( Bits16 )"); a("    s.outs = [ OutPort( Bits16 ) for _ in range(1) ]")
+  i0='s.in0'
+  if extra_pred:
+    a("    s.pre = Wire( Bits16 )"); a("    @update"); a("    def up_pre(): s.pre @= s.in0 + 3"); i0='s.pre'
+  def chain(prefix,body):
+    a("    @s.func"); a(f"    def {prefix}1():"); a("      "+body)
+    for k in range(2,d+1):
+      a("    @s.func"); a(f"    def {prefix}{k}():"); a(f"      {prefix}{k-1}()")
+  if side in('writer','both'):
+    chain('h',f"s.w @= {i0} ^ s.in1"); a("    @update"); a("    def up_wr():"); a(f"      h{d}()")
+  else:
+    a("    @update"); a("    def up_wr():"); a(f"      s.w @= {i0} ^ s.in1")
+  if side in('reader','both'):
+    chain('g',"s.outs[0] @= s.w + 1"); a("    @update"); a("    def up_rd0():"); a(f"      g{d}()")
+  else:
+    a("    @update"); a("    def up_rd0():"); a("      s.outs[0] @= s.w + 1")
+  return '\n'.join(L)+'\n'
 
 def gen_A(wk,rks,struct,fwd,extra_pred):
   L=[]; a=L.append
@@ -102,6 +133,13 @@ def family_B():
     for pred in (False,True):
       for order in (0,1):
         out.append((f"B[{kind};{'pred' if pred else 'nopred'};o{order}]",gen_B(kind,pred,order)))
+  # cycles carried by fields of one struct whose names are prefixes of each other; cycles that must be rejected (no value-carrying
+  # signal: only explicit constraints, one of them inverting a writer/reader pair; an update_once block on the cycle), each with and
+  # without a predecessor block feeding the group
+  for kind in ('true_prefix_fields','reject_explicit_only','reject_explicit_inverted','reject_update_once'):
+    for pred in (False,True):
+      for order in (0,1):
+        out.append((f"B[{kind};{'pred' if pred else 'nopred'};o{order}]",gen_B(kind,pred,order)))
   return out
 
 def gen_B(kind,pred,order):
@@ -130,11 +168,32 @@ def gen_B(kind,pred,order):
     # two different signals travel between the same pair of blocks, in both directions
     a("    s.x = Wire( Bits8 ); s.z = Wire( Bits8 ); s.y = Wire( Bits8 ); s.t = Wire( Bits8 )")
     blocks=[('up_x',[f"s.x @= {i0} & s.y","s.z @= s.in1 & s.t"]),('up_y',["s.y @= s.x | s.in1","s.t @= s.z | s.in1"]),('up_o',["s.out @= s.x","s.out2 @= s.z"])]
+  elif kind=='true_prefix_fields':
+    # val <- val2 ; val2 <- val | in1 | in0': converges; the two fields carrying the cycle are `val` and `val2` of one struct
+    a("    s.st = Wire( Pre )")
+    blocks=[('up_fwd',["s.st.val @= s.st.val2"]),('up_acc',[f"s.st.val2 @= s.st.val | s.in1 | {i0}"]),('up_o',["s.out @= s.st.val","s.out2 @= s.st.val2"])]
+  elif kind=='reject_explicit_only':
+    a("    s.x = Wire( Bits8 ); s.y = Wire( Bits8 ); s.z = Wire( Bits8 )")
+    blocks=[('up_a',[f"s.x @= {i0}"]),('up_b',["s.y @= s.in1"]),('up_c',["s.z @= s.in1 + 1"]),('up_o',["s.out @= s.x","s.out2 @= s.y ^ s.z"])]
+    tail=["s.add_constraints( U(up_a) < U(up_b), U(up_b) < U(up_c), U(up_c) < U(up_a) )"]
+  elif kind=='reject_explicit_inverted':
+    # up_a writes x, up_b reads x, the implicit order is inverted explicitly and closed into a cycle by two more explicit constraints
+    a("    s.x = Wire( Bits8 ); s.y = Wire( Bits8 ); s.z = Wire( Bits8 )")
+    blocks=[('up_a',[f"s.x @= {i0}"]),('up_b',["s.y @= s.x"]),('up_c',["s.z @= s.in1"]),('up_o',["s.out @= s.y","s.out2 @= s.z"])]
+    tail=["s.add_constraints( U(up_b) < U(up_a), U(up_a) < U(up_c), U(up_c) < U(up_b) )"]
+  elif kind=='reject_update_once':
+    a("    s.x = Wire( Bits8 ); s.y = Wire( Bits8 )")
+    blocks=[('up_once',["s.x @= s.y"]),('up_inc',[f"s.y @= s.x | {i0}"]),('up_o',["s.out @= s.x","s.out2 @= s.y"])]
   else:
     a("    s.x = Wire( Bits8 ); s.y = Wire( Bits8 ); s.z = Wire( Bits8 )")
     blocks=[('up_x',[f"s.x @= {i0} & s.z"]),('up_y',["s.y @= s.x | s.in1"]),('up_z',["s.z @= s.y & s.in1"]),('up_o',["s.out @= s.x","s.out2 @= s.z"])]
   if order: blocks=blocks[::-1]
-  for n,st in blocks: blk(n,*st)
+  for n,st in blocks:
+    if n=='up_once':
+      a("    @update_once"); a(f"    def {n}():")
+      for x in st: a("      "+x)
+    else: blk(n,*st)
+  for t in locals().get('tail',[]): a("    "+t)
   return '\n'.join(L)+'\n'
 
 # ---------------------------------------------------------------------------------------------- family C: registers
@@ -232,6 +291,14 @@ def family_D():
   both_orders('disjoint-fields',blk('up_a',"s.st.q @= s.in0"),blk('up_b',"s.st.p.x @= s.in1[0:4]","s.st.p.y @= s.in1[4:8]"),blk('up_o',"s.out @= s.st.q"),None)
   out.append(("D[one-block-overlapping-slices]",top([P]+blk('up_a',"s.w[0:5] @= s.in0[0:5]","s.w[3:8] @= s.in1[0:5]")+rd),None))
   out.append(("D[one-block-slice-and-whole]",top([P]+blk('up_a',"s.w @= s.in1","s.w[0:4] @= s.in0[0:4]")+rd),None))
+  # ---- writes through @s.func helper functions (a helper may call another helper): the write belongs to every block that reaches it
+  def helpers(depth,target):
+    L=["@s.func","def f1( v ):",f"  {target} @= v"]
+    for d in range(2,depth+1): L+=["@s.func",f"def f{d}( v ):",f"  f{d-1}( v + 1 )"]
+    return L
+  for d in (1,2,3):
+    both_orders(f'helper-depth{d}-and-block-drive-one-signal',helpers(d,'s.w')+blk('up_a',f"f{d}( s.in0 )"),blk('up_b',"s.w @= s.in1"),rd,'MultiWriterError')
+    out.append((f"D[helper-depth{d}-single-driver]",top([P]+helpers(d,'s.w')+blk('up_a',f"f{d}( s.in0 )")+rd),None))
   # ---- nets
   both_orders('block-and-net-drive-one-signal',blk('up_a',"s.w @= s.in0"),["s.w //= s.in1"],rd,'MultiWriterError')
   both_orders('two-nets-drive-one-signal',["connect( s.w, s.in0 )"],["connect( s.in1, s.w )"],rd,'MultiWriterError')
@@ -247,6 +314,8 @@ def family_D():
   ch('legal-parent-child',["s.c.i //= s.in0"]+blk('up_o',"s.out @= s.c.o"),None)
   ch('parent-block-writes-child-inport',blk('up_a',"s.c.i @= s.in0")+blk('up_o',"s.out @= s.c.o"),None)
   ch('parent-block-writes-child-outport',["s.c.i //= s.in0"]+blk('up_a',"s.c.o @= s.in0")+blk('up_o',"s.out @= s.in1"),('SignalTypeError','MultiWriterError'))
+  for d in (1,2,3):
+    ch(f'parent-helper-depth{d}-writes-child-outport',["s.c.i //= s.in0"]+helpers(d,'s.c.o')+blk('up_a',f"f{d}( s.in0 )")+blk('up_o',"s.out @= s.in1"),('SignalTypeError','MultiWriterError'))
   ch('parent-block-reads-child-wire',["s.c.i //= s.in0"]+blk('up_o',"s.out @= s.c.wi"),'SignalTypeError')
   ch('parent-block-writes-child-wire',["s.c.i //= s.in0"]+blk('up_a',"s.c.wi @= s.in0")+blk('up_o',"s.out @= s.in1"),('SignalTypeError','MultiWriterError'))
   ch('parent-block-writes-own-inport',["s.c.i //= s.in0"]+blk('up_a',"s.in1 @= s.in0")+blk('up_o',"s.out @= s.c.o"),'SignalTypeError')
@@ -285,6 +354,9 @@ def family_E(max_perms=6):
   base.append(('struct-whole-and-deep-field',"s.m = Wire( Outer ); s.n = Wire( Outer )",[("s.m.p.x","s.in0[0:4]"),("s.m.p.y","s.in0[4:8]"),("s.m.q","s.in1"),("s.n","s.m")],[],"s.out @= s.n.q"))
   base.append(('deep-fields-only-and-whole',"s.m = Wire( Deep ); s.n = Wire( Deep )",[("s.m.p.x","s.in0[0:4]"),("s.m.p.y","s.in0[4:8]"),("s.n","s.m")],[],"s.out[0:4] @= s.n.p.x\n      s.out[4:8] @= s.n.p.y"))
   base.append(('child-ports',"s.f = Fwd( Bits8 ); s.g = Fwd( Bits8 ); s.a = Wire( Bits8 )",[("s.f.in_","s.in0"),("s.g.in_","s.f.out"),("s.a","s.g.out")],[],"s.out @= s.a"))
+  # non-zero constants tied to a slice / to a Bits field of a struct (the rest of the signal driven through other nets)
+  base.append(('const-slice',"s.a = Wire( Bits8 )",[("s.a[0:4]","5"),("s.a[4:8]","s.in0[0:4]")],[],"s.out @= s.a"))
+  base.append(('const-field',"s.m = Wire( Outer )",[("s.m.q","90"),("s.m.p.x","s.in0[0:4]"),("s.m.p.y","s.in0[4:8]")],[],"s.out @= s.m.q"))
   out=[]
   rng=random.Random(7)
   for name,decl,conns,drv,rd in base:
@@ -299,7 +371,7 @@ def family_E(max_perms=6):
           l,r=conns[ci]
           swap = (flip==1) or (flip==2 and j%2==1)
           if swap and not r.isdigit(): l,r=r,l
-          use_connect = (j+pi)%2 or l.count('.')>1 or l.isdigit()      # the DSL has no //= on struct-field / constant left-hand sides
+          use_connect = (j+pi)%2 or l.count('.')>1 or l.isdigit() or '[' in l      # the DSL has no //= on struct-field / constant left-hand sides
           L.append(f"    connect( {l}, {r} )" if use_connect else f"    {l} //= {r}")
         if drv:
           L+=["    @update","    def up_drv():"]+["      "+d for d in drv]
